@@ -17,13 +17,14 @@
 (***************************************************************************)
 EXTENDS LRU, TLC, Json
 
-CONSTANTS Keys, Caps, MaxLen, Conc
+CONSTANTS Keys, Caps, MaxLen, Conc,
+          NilPuts      \* FALSE leaves Put(k, nil) out (simulation of the default capacity: the cache must fill up)
 VARIABLES hist,     \* Conc=FALSE: sequence of calls with their results; Conc=TRUE: sequence of Call/Ret events
           lin       \* Conc=TRUE: the order in which calls were linearised, as <<t, n>>
 vars == <<cap, q, pend, hist, lin>>
 
 Max(S) == CHOOSE x \in S : \A y \in S : y <= x
-OpsAt(n) == [op : {"Get"}, k : Keys, v : {Nil}] \cup [op : {"Put"}, k : Keys, v : {Nil, n}]
+OpsAt(n) == [op : {"Get"}, k : Keys, v : {Nil}] \cup [op : {"Put"}, k : Keys, v : IF NilPuts THEN {Nil, n} ELSE {n}]
 
 Init == /\ \E n \in Caps : New(n)
         /\ hist = <<>> /\ lin = <<>>
